@@ -137,8 +137,11 @@ fn enumerate_ae(cx: &mut Ctx, j: &Judge, fam: Family, w0: &Wire, msg: &[u8], che
     let len = msg.len();
     j.control(cx, fam, w0, msg);
     // every bit of the wire bytes (sealed: epk | mac | body ; otherwise mac | body)
+    // long wires (length-dependent code paths above internal thresholds) are sampled: the first and last 24 bytes
+    // completely, one bit every 509 in between; likewise the truncation points
     let nbits = w0.ct.len() * 8;
-    for bit in 0..nbits {
+    let long = w0.ct.len() > 700;
+    for bit in (0..nbits).filter(|b| !long || *b < 192 || *b + 192 >= nbits || b % 509 == 0) {
         let mut w = w0.clone();
         flip(&mut w.ct, bit);
         let off = bit / 8;
@@ -164,7 +167,8 @@ fn enumerate_ae(cx: &mut Ctx, j: &Judge, fam: Family, w0: &Wire, msg: &[u8], che
         }
     }
     // every truncation
-    for cut in 1..=w0.ct.len() {
+    let clen = w0.ct.len();
+    for cut in (1..=clen).filter(|c| !long || *c <= 40 || *c + 40 >= clen || c % 251 == 0) {
         let mut w = w0.clone();
         w.ct.truncate(w0.ct.len() - cut);
         j.tampered(cx, fam, &w, "ciphertext", "truncate", &format!("cut {}", cut), cheap_only, len);
@@ -359,7 +363,9 @@ fn enumerate_stream(cx: &mut Ctx, prop: Prop, sentinel: &[u8], w0: &SWire, msg: 
             cx.cover("control_accepted", name);
         }
     }
-    for bit in 0..w0.ct.len() * 8 {
+    let nbits = w0.ct.len() * 8;
+    let long = w0.ct.len() > 700;
+    for bit in (0..nbits).filter(|b| !long || *b < 192 || *b + 192 >= nbits || b % 509 == 0) {
         let mut w = w0.clone();
         flip(&mut w.ct, bit);
         let off = bit / 8;
@@ -401,7 +407,8 @@ fn enumerate_stream(cx: &mut Ctx, prop: Prop, sentinel: &[u8], w0: &SWire, msg: 
         w.ad = Some(vec![0u8]);
         stream_tampered(cx, prop, sentinel, &w, "associated_data", "added", "1 x 0x00", len, &mut errs);
     }
-    for cut in 1..=w0.ct.len() {
+    let clen = w0.ct.len();
+    for cut in (1..=clen).filter(|c| !long || *c <= 40 || *c + 40 >= clen || c % 251 == 0) {
         let mut w = w0.clone();
         w.ct.truncate(w0.ct.len() - cut);
         stream_tampered(cx, prop, sentinel, &w, "ciphertext", "truncate", &format!("cut {}", cut), len, &mut errs);
@@ -435,12 +442,12 @@ pub fn run_c17(cx: &mut Ctx) {
 fn run(cx: &mut Ctx, prop: Prop) {
     let lens: Vec<usize> = match (cx.tier, prop) {
         (crate::ctx::Tier::Tiny, _) => vec![0, 1, 17],
-        (crate::ctx::Tier::Quick, Prop::C02) => vec![0, 1, 15, 16, 17, 63, 64, 65],
-        (crate::ctx::Tier::Quick, Prop::C17) => vec![1, 15, 16, 17, 64, 65],
-        (crate::ctx::Tier::Thorough, Prop::C02) => (0..=200).chain([255, 256, 257, 1023, 1024, 1025, 4096]).collect(),
-        (crate::ctx::Tier::Thorough, Prop::C17) => (1..=200).chain([256, 1024, 4096]).collect(),
+        (crate::ctx::Tier::Quick, Prop::C02) => vec![0, 1, 15, 16, 17, 63, 64, 65, 4097],
+        (crate::ctx::Tier::Quick, Prop::C17) => vec![1, 15, 16, 17, 64, 65, 4097, 20_000],
+        (crate::ctx::Tier::Thorough, Prop::C02) => (0..=200).chain([255, 256, 257, 1023, 1024, 1025, 4096, 4097, 8193, 16_385, 65_537, 300_000]).collect(),
+        (crate::ctx::Tier::Thorough, Prop::C17) => (1..=200).chain([256, 1024, 4096, 4097, 8193, 16_385, 65_537, 300_000]).collect(),
     };
-    let quick_set: [usize; 8] = [0, 1, 15, 16, 17, 63, 64, 65];
+    let quick_set: [usize; 10] = [0, 1, 15, 16, 17, 63, 64, 65, 4097, 20_000];
     let forms = open_forms_for(cx);
     let nightly_only = cx.opt("nightly_forms_only").is_some();
     let mut idx = 0u64;
